@@ -210,3 +210,142 @@ theorem checkRow_terminates (fks : List FkDecl) (rank : Nat → Nat) (hr : Ranke
     rw [hd2.1] at this; omega
 
 end VibeProof.Dml
+
+namespace VibeProof.Dml
+open VibeProof
+
+/-! ### only transitive referrers are removed -/
+
+/-- `r` (table `i`) references `(p, pr)` through a chain of ON DELETE CASCADE keys, all rows in `db` -/
+inductive RF (fks : List FkDecl) (db : Db) (p : Nat) (pr : Row) : Nat → Row → Prop where
+  | direct (d : FkDecl) (c : Row) : d ∈ fks → d.parent = p → d.onDelete = .cascade → c ∈ db d.child →
+      d.fk.refers (keyOf d.pcols pr) c = true → RF fks db p pr d.child c
+  | trans (q : Nat) (qr : Row) (d : FkDecl) (c : Row) : RF fks db p pr q qr → d ∈ fks → d.parent = q →
+      d.onDelete = .cascade → c ∈ db d.child → d.fk.refers (keyOf d.pcols qr) c = true → RF fks db p pr d.child c
+
+theorem RF.mono {fks : List FkDecl} {db1 db : Db} (hs : Sub db1 db) {p : Nat} {pr : Row} {i : Nat} {r : Row}
+    (h : RF fks db1 p pr i r) : RF fks db p pr i r := by
+  induction h with
+  | direct d c hd hp ha hc hr => exact .direct d c hd hp ha (hs _ c hc) hr
+  | trans q qr d c _ hd hp ha hc hr ih => exact .trans q qr d c ih hd hp ha (hs _ c hc) hr
+
+theorem RF.comp {fks : List FkDecl} {db : Db} {p : Nat} {pr : Row} {q : Nat} {qr : Row} {i : Nat} {r : Row}
+    (h1 : RF fks db p pr q qr) (h2 : RF fks db q qr i r) : RF fks db p pr i r := by
+  induction h2 with
+  | direct d c hd hp ha hc hr => exact .trans q qr d c h1 hd hp ha hc hr
+  | trans q' qr' d c _ hd hp ha hc hr ih => exact .trans q' qr' d c ih hd hp ha hc hr
+
+/-- every row the call removes referenced (transitively) the row it was called for -/
+def Spec2 (fks : List FkDecl) (rec : Nat → Db → Row → Except CErr Db) : Prop :=
+  ∀ t db v db', rec t db v = .ok db' → Sub db' db ∧ ∀ i r, r ∈ db i → r ∉ db' i → RF fks db t v i r
+
+theorem runVictims_only (fks : List FkDecl) (rec : Nat → Db → Row → Except CErr Db) (hrec : Spec2 fks rec) (t : Nat) :
+    ∀ (vs : List Row) (db db' : Db), runVictims (rec t) vs db = .ok db' →
+      Sub db' db ∧ ∀ i r, r ∈ db i → r ∉ db' i → ∃ v ∈ vs, RF fks db t v i r := by
+  intro vs
+  induction vs with
+  | nil =>
+    intro db db' hr
+    simp only [runVictims, Except.ok.injEq] at hr; subst hr
+    exact ⟨Sub.refl _, fun i r h1 h2 => absurd h1 h2⟩
+  | cons v vs ih =>
+    intro db db' hr
+    unfold runVictims at hr
+    split at hr
+    · simp at hr
+    · rename_i db1 h1
+      obtain ⟨a1, a2⟩ := hrec t db v db1 h1
+      obtain ⟨b1, b2⟩ := ih db1 db' hr
+      refine ⟨b1.trans a1, ?_⟩
+      intro i r hin hout
+      by_cases hmid : r ∈ db1 i
+      · obtain ⟨v', hv', hrf⟩ := b2 i r hmid hout
+        exact ⟨v', List.mem_cons_of_mem _ hv', hrf.mono a1⟩
+      · exact ⟨v, List.mem_cons_self, a2 i r hin hmid⟩
+
+theorem deleteVictims_only (fks : List FkDecl) (rec : Nat → Db → Row → Except CErr Db) (hrec : Spec2 fks rec)
+    (t : Nat) (victims : List Row) (db db' : Db) (hr : deleteVictims (rec t) db t victims = .ok db') :
+    Sub db' db ∧ ∀ i r, r ∈ db i → r ∉ db' i → (i = t ∧ r ∈ victims) ∨ ∃ v ∈ victims, RF fks db t v i r := by
+  unfold deleteVictims at hr
+  split at hr
+  · simp at hr
+  · rename_i db1 h1
+    obtain ⟨a1, a2⟩ := runVictims_only fks rec hrec t victims db db1 h1
+    simp only [Except.ok.injEq] at hr; subst hr
+    constructor
+    · intro i r hr
+      simp only [Db.set] at hr
+      split at hr
+      · rename_i hi; subst hi; exact a1 _ r (List.mem_filter.mp hr).1
+      · exact a1 _ r hr
+    · intro i r hin hout
+      by_cases hmid : r ∈ db1 i
+      · left
+        simp only [Db.set] at hout
+        split at hout
+        · rename_i hi
+          refine ⟨hi, ?_⟩
+          subst hi
+          simp only [List.mem_filter, Bool.not_eq_true', List.contains_eq_mem, decide_eq_false_iff_not, not_and,
+            Decidable.not_not] at hout
+          exact hout hmid
+        · exact absurd hmid hout
+      · exact Or.inr (a2 i r hin hmid)
+
+theorem runActs_only (fks : List FkDecl) (hco : CascadeOnly fks) (rec : Nat → Db → Row → Except CErr Db)
+    (hrec : Spec2 fks rec) (t : Nat) (row : Row) : ∀ (ds : List FkDecl) (db0 db db' : Db),
+      (∀ d ∈ ds, d ∈ fks ∧ d.parent = t) → Sub db db0 → runActs rec row ds db = .ok db' →
+      Sub db' db ∧ ∀ i r, r ∈ db i → r ∉ db' i → RF fks db0 t row i r := by
+  intro ds
+  induction ds with
+  | nil =>
+    intro db0 db db' _ _ hr
+    simp only [runActs, Except.ok.injEq] at hr; subst hr
+    exact ⟨Sub.refl _, fun i r h1 h2 => absurd h1 h2⟩
+  | cons d ds ih =>
+    intro db0 db db' hmem hs0 hr
+    unfold runActs at hr
+    split at hr
+    · simp at hr
+    · rename_i db1 h1
+      obtain ⟨hd, hp⟩ := hmem d List.mem_cons_self
+      have hstep : Sub db1 db ∧ ∀ i r, r ∈ db i → r ∉ db1 i → RF fks db t row i r := by
+        unfold applyAct at h1
+        simp only [] at h1
+        split at h1
+        · simp at h1
+        · rename_i hcas
+          obtain ⟨a1, a2⟩ := deleteVictims_only fks rec hrec d.child _ db db1 h1
+          refine ⟨a1, ?_⟩
+          intro i r hin hout
+          rcases a2 i r hin hout with ⟨hi, hv⟩ | ⟨v, hv, hrf⟩
+          · subst hi
+            obtain ⟨hv1, hv2⟩ := List.mem_filter.mp hv
+            exact .direct d r hd hp hcas hv1 hv2
+          · obtain ⟨hv1, hv2⟩ := List.mem_filter.mp hv
+            exact (RF.direct d v hd hp hcas hv1 hv2).comp hrf
+        · rename_i hsn
+          exact absurd hsn (hco d hd)
+      obtain ⟨a1, a2⟩ := hstep
+      obtain ⟨b1, b2⟩ := ih db0 db1 db' (fun x hx => hmem x (List.mem_cons_of_mem _ hx)) (a1.trans hs0) hr
+      refine ⟨b1.trans a1, ?_⟩
+      intro i r hin hout
+      by_cases hmid : r ∈ db1 i
+      · exact b2 i r hmid hout
+      · exact (a2 i r hin hmid).mono hs0
+
+theorem checkRow_spec2 (fks : List FkDecl) (hco : CascadeOnly fks) :
+    ∀ (fuel : Nat), Spec2 fks (fun t db v => checkRow fks fuel db t v) := by
+  intro fuel
+  induction fuel with
+  | zero => intro t db v db' hr; simp [checkRow] at hr
+  | succ f ih =>
+    intro t db row db' hr
+    simp only [checkRow] at hr
+    exact runActs_only fks hco _ ih t row _ db db db'
+      (fun d hd => by
+        obtain ⟨h1, h2⟩ := List.mem_filter.mp hd
+        simp only [Bool.and_eq_true, beq_iff_eq] at h2
+        exact ⟨h1, h2.1⟩) (Sub.refl _) hr
+
+end VibeProof.Dml
